@@ -1462,17 +1462,21 @@ def no_failure_after_write(run, R="WRITE"):
 
 def get_blocks_rules(run, R="MPT"):
     """BitVec::get_blocks (Intel HEX records): a span that does not continue the current block always starts a new one -- on the
-    `offset != origin + size` edge every path through the loop body resets the current origin before the origin is looked at again"""
+    `offset != origin + size` edge every path through the loop body to the next span passes an assignment that makes this span's
+    offset the origin of the current block"""
     f = run.anchor(R, "util::bitvec::BitVec::get_blocks")
     if f is None:
         return
-    ok, why = False, "the discontinuity test `span offset != origin + size` was not found"
+    ok, why = False, "the discontinuity test `span offset ==/!= origin + size` was not found"
     for bi, si, st in f.stmts():
         if st["k"] != "assign" or st["rv"]["k"] != "binop" or st["rv"]["op"] not in ("Ne", "Eq"):
             continue
         l, r = _deep(f, st["rv"]["l"], 6), _deep(f, st["rv"]["r"], 6)
-        both = l + " | " + r
-        if not (re.search(r"\.offset(@Some\.0)?", both) and re.search(r"\((var[^()]*|[^()]*@Some\.0) Add var[^()]*\)", both)):
+        if ".offset" in l and " Add " in r:
+            off = l
+        elif ".offset" in r and " Add " in l:
+            off = r
+        else:
             continue
         tt = f.blocks[bi]["term"]
         if tt["k"] != "switch":
@@ -1481,36 +1485,66 @@ def get_blocks_rules(run, R="MPT"):
         if not ft:
             continue
         disc_edge = tt["otherwise"] if st["rv"]["op"] == "Ne" else ft[0]
-        # the origin is the Option local unwrapped in the sum
-        m = re.search(r"\((var:\w+|[^()]*)@Some\.0 Add", both)
-        origin_locals = [x for x in range(len(f.locals)) if "Option<usize>" in str(f.local_ty(x)) and f.local_name(x)]
-        resets = [b2 for b2, s2, st2 in f.stmts() if st2["k"] == "assign" and st2["rv"]["k"] == "agg" and st2["rv"].get("variant") == "None" and not st2["place"]["p"]
-                  and f.copy_root(st2["place"]["l"]) in origin_locals or (st2["k"] == "assign" and st2["rv"]["k"] == "agg" and st2["rv"].get("variant") == "None" and any(
-                      d[0] == "stmt" and d[3]["rv"]["k"] == "use" and op_local(d[3]["rv"]["op"]) == st2["place"]["l"] for x in origin_locals for d in f.full_defs(x)))]
         loop = set()
+        header = None
         for h in f.reachable():
             lp = natural_loop(f, h)
-            if bi in lp:
-                loop |= lp
-        resets = [b2 for b2 in resets if b2 in loop]
-        # the next look at the origin: a discriminant read of an origin local inside the loop, after the test
-        looks = [b2 for b2, s2, st2 in f.stmts() if b2 in loop and b2 != bi and st2["k"] == "assign" and st2["rv"]["k"] == "discr" and st2["rv"]["place"]["l"] in origin_locals]
-        if not resets:
-            why = "no reset of the current origin inside the loop"
+            if bi in lp and (not loop or len(lp) < len(loop)):
+                loop, header = lp, h
+        if header is None:
             continue
-        seen, work = set(), [disc_edge]
-        escaped = None
+        # blocks that make this span's offset the new origin: `Some(<offset>)` or `Some(Block { offset: <offset>, .. })`
+        starts = set()
+        for b2, s2, st2 in f.stmts():
+            if b2 in loop and st2["k"] == "assign" and st2["rv"]["k"] == "agg":
+                d2 = _deep(f, {"copy": st2["place"]}, 6) if False else None
+                txt = ", ".join(_deep(f, o, 6) for o in st2["rv"]["ops"])
+                if off in txt and (st2["rv"].get("variant") == "Some" or str(st2["rv"].get("adt", "")).endswith("BitVecBlock")):
+                    starts.add(b2)
+        if not starts:
+            why = "nothing in the loop makes a span's offset the origin of a block"
+            continue
+        # path search; the only path knowledge kept: Option locals just assigned `None` (a following `if let None = x` goes one way)
+        seen, work = set(), [(disc_edge, frozenset())]
+        escaped = False
         while work:
-            x = work.pop()
-            if x in seen or x in resets or x not in loop:
+            x, none_known = work.pop()
+            if (x, none_known) in seen or x in starts or f.blocks[x]["cleanup"]:
                 continue
-            seen.add(x)
-            if x in looks and x != bi and not f.dominates(x, bi):
-                escaped = x
+            if x == header or x not in loop:
+                escaped = True
                 continue
-            work.extend(f.succs(x))
-        ok = escaped is None
-        why = "on the `does not continue the block` edge the origin can be looked at again (block %s) without having been reset: a span after a gap would be put into the previous block's address range" % escaped
+            seen.add((x, none_known))
+            nk = set(none_known)
+            discr_of = {}
+            for st2 in f.blocks[x]["stmts"]:
+                if st2["k"] != "assign" or st2["place"]["p"]:
+                    continue
+                d_ = st2["place"]["l"]
+                rv2 = st2["rv"]
+                if rv2["k"] == "agg" and rv2.get("variant") == "None":
+                    nk.add(d_)
+                elif rv2["k"] == "use" and op_local(rv2["op"]) in nk and not op_place(rv2["op"])["p"]:
+                    nk.add(d_)
+                elif rv2["k"] == "discr" and not rv2["place"]["p"]:
+                    discr_of[d_] = (rv2["place"]["l"], rv2.get("variants") or {})
+                    nk.discard(d_)
+                else:
+                    nk.discard(d_)
+            tt2 = f.blocks[x]["term"]
+            nxt = f.succs(x)
+            if tt2["k"] == "switch" and op_local(tt2["discr"]) in discr_of:
+                src, vs = discr_of[op_local(tt2["discr"])]
+                if src in nk:
+                    none_t = [tg for v, tg in tt2["targets"] if vs.get(v) == "None"]
+                    nxt = none_t if none_t else [tt2["otherwise"]]
+            if tt2["k"] == "call" and not tt2["dest"]["p"]:
+                nk.discard(tt2["dest"]["l"])
+            for y in nxt:
+                work.append((y, frozenset(nk)))
+        ok = not escaped
+        why = "on the `does not continue the block` edge the loop can go on to the next span without having made this span's offset the origin of a new block: a span after a gap would be put into the previous block's address range"
+        break
     run.check(ok, R, R + "|get-blocks|gap-starts-block", f.loc(), "get_blocks: a span that does not continue the current block always starts a new block",
               "BitVec::get_blocks: %s" % why)
 
